@@ -494,6 +494,38 @@ def r165(ctx, ut):
         ctx.exhaustive[f'R16.5 {cname} guards over (same type?, same signature?)'] = True
 
 
+# --------------------------------------------------------------------------- what _val builds, by cases
+def val_summary(prog, cname, given):
+    """Outcome of `<cname>._val` when exactly the parameters named in `given` are passed (the others, all optional, are None):
+    {'build': text of the constructor call that creates the result, 'attrs': {attribute stored on the result: text}} for every path,
+    or a string saying why it cannot be summarised.  E10 path summaries; conditional expressions on `p is None` are decided."""
+    from ..pathsum import PathSum, Unsupported
+    fn = prog.method(cname, '_val', inherited=False)
+    params = [a.arg for a in fn.args.args[1:]]
+    nd = len(fn.args.defaults)
+    required = params[:len(params) - nd]
+    if any(p not in given for p in required) and not all(p in params for p in given):
+        return 'parameters do not match'
+    env = {}
+    for p in params:
+        env[('isnone', p)] = p not in given
+    try:
+        outs = PathSum(prog, cname, fn, env, assume_validated=False).run()
+    except Unsupported as e:
+        return f'not summarised ({e})'
+    res = []
+    for o in outs:
+        if o.kind != 'return' or not isinstance(o.ret, ast.Name):
+            return f'_val ends with {o.kind}' if o.kind != 'return' else 'the result is not a local object'
+        if any(isinstance(b, str) for (_c, b) in o.conds):
+            return 'the result depends on a condition the arguments do not decide'
+        q = o.ret.id
+        if q not in o.locs:
+            return 'the result is not built in _val'
+        res.append({'build': unparse(o.locs[q]), 'attrs': {k.split('.', 1)[1]: unparse(v) for k, v in o.locs.items() if k.startswith(q + '.')}})
+    return res
+
+
 # --------------------------------------------------------------------------- R16.6
 def _cmp_by_cases(ctx, prog, cname, fn, other, opt):
     """the comparison method, summarised path by path for float(self) <, ==, >, unordered (NaN) float(other): the returned
@@ -573,12 +605,20 @@ def r166(ctx, ut):
                 ctx.finding('R16.6', f'{cname}.{meth}', ci, fn, f'{meth} is not `{shape}`', where=f'{cname}.{meth}')
         # _val keeps the unit of self
         fn = prog.method(cname, '_val', inherited=False)
-        keeps = any(isinstance(n, ast.Assign) and isinstance(n.targets[0], ast.Attribute) and n.targets[0].attr == '_unit' and unparse(n.value) == 'self._unit'
-                    for n in walk_shallow(fn))
-        builds = any(isinstance(n, ast.Call) and unparse(n.func) in ('type(self)', 'SI', cname) and len(n.args) == 1 and not n.keywords
-                     for n in walk_shallow(fn))
-        sig_kept = cname != 'SI' or any(isinstance(n, ast.Assign) and isinstance(n.targets[0], ast.Attribute) and n.targets[0].attr == '_sisig'
-                                        and unparse(n.value) in ('self._sisig', 'self.sisig()', 'list(self._sisig)') for n in walk_shallow(fn))
+        sp_ = fn.args.args[1].arg
+        vs = val_summary(prog, cname, {sp_})
+        if isinstance(vs, list) and vs:
+            # by cases: called with the SI value only, every path builds <class>(si) and copies unit (and signature) from self
+            builds = all(r['build'] in (f'type(self)({sp_})', f'SI({sp_})', f'{cname}({sp_})') for r in vs)
+            keeps = all(r['attrs'].get('_unit') == 'self._unit' for r in vs)
+            sig_kept = cname != 'SI' or all(r['attrs'].get('_sisig') in ('self._sisig', 'self.sisig()', 'list(self._sisig)') for r in vs)
+        else:
+            keeps = any(isinstance(n, ast.Assign) and isinstance(n.targets[0], ast.Attribute) and n.targets[0].attr == '_unit' and unparse(n.value) == 'self._unit'
+                        for n in walk_shallow(fn))
+            builds = any(isinstance(n, ast.Call) and unparse(n.func) in ('type(self)', 'SI', cname) and len(n.args) == 1 and not n.keywords
+                         for n in walk_shallow(fn))
+            sig_kept = cname != 'SI' or any(isinstance(n, ast.Assign) and isinstance(n.targets[0], ast.Attribute) and n.targets[0].attr == '_sisig'
+                                            and unparse(n.value) in ('self._sisig', 'self.sisig()', 'list(self._sisig)') for n in walk_shallow(fn))
         ok = keeps and builds and sig_kept
         ctx.ob('R16.6', f'{cname}._val', ok, sample=f'{cname}._val: builds from SI value without unit argument {builds}; copies unit {keeps}; copies signature {sig_kept}')
         if not ok:
